@@ -1,4 +1,6 @@
 (* extraction of the core interpreter (machine and reference semantics) for the correspondence run *)
 Require Import ExtrOcamlBasic.
 Require Import XV.XsltEventsDefs XV.XsltVarsDefs XV.XsltCoreDefs.
-Extraction "extracted/xsltCore_model.ml" machine_result machine_main sem_main result_of canon_list.
+Extraction "extracted/xsltCore_model.ml"
+  BinNums.positive BinNums.N BinNums.Z
+  machine_result machine_main sem_main result_of canon_list.
